@@ -62,7 +62,9 @@ JudgeEvent(ev) ==
                                [orig |-> s, alt |-> CHOOSE t \in wins : TRUE, n |-> Cardinality(wins), full |-> full]))
        /\ PrintT("ADV " \o ToJson(<<ev.id, j, Cardinality(space), full>>))
 
-Relevant(ev) == ev.parse = "ok" /\ ev.st.ms.sane /\ NodeCount(ev.ast) <= MaxN
+\* every sane script of the case file: the exhaustive part and the larger sampled families
+\* (the adversary's cost depends on the witness length, bounded by MaxS, not on the node count)
+Relevant(ev) == ev.parse = "ok" /\ ev.st.ms.sane
 
 Inv == i > 0 => (~Relevant(Rec[i]) \/ JudgeEvent(Rec[i]))
 Post == PrintT("TRACE_DONE " \o ToJson(<<Len(Rec), TLCGet("stats").distinct>>))
